@@ -1,5 +1,6 @@
 import Psa.DryRunProofs
 import Psa.EvalProofs
+import Psa.Examples
 /-! # C11 — namespace label changes are validated and dry-run against existing pods -/
 namespace PSA.Props
 open PSA
@@ -129,6 +130,14 @@ theorem C11_order_independent (ev : Ev) (exRC : List Str) (maxPods : Nat) (ns : 
     (h : pods.Perm pods') (hcap : (pods.filter (fun p => !exemptRC p.runtimeClass exRC)).length ≤ maxPods) :
     (dryRun ev exRC maxPods ns lv pods none).1 = (dryRun ev exRC maxPods ns lv pods' none).1 :=
   dryRun_perm ev exRC maxPods ns lv pods pods' h hcap
+
+/-- non-vacuity: a namespace update from no labels to enforce=restricted:v1.25 over a population of a privileged and a plain pod:
+    allowed, one listing, a header and two pod lines; the same update to a malformed level is a 422 -/
+example : (validateNamespace parseVersion Ex.cfg Ex.lim (Ex.world [] [Ex.privPod, Ex.plainPod]) (Ex.nsUpdate Ex.restrictedLabels [])).1.allowed = true ∧
+    (validateNamespace parseVersion Ex.cfg Ex.lim (Ex.world [] [Ex.privPod, Ex.plainPod]) (Ex.nsUpdate Ex.restrictedLabels [])).2.listCalls = 1 ∧
+    (validateNamespace parseVersion Ex.cfg Ex.lim (Ex.world [] [Ex.privPod, Ex.plainPod]) (Ex.nsUpdate Ex.restrictedLabels [])).1.warnings.length = 3 := by
+  decide +kernel
+example : (validateNamespace parseVersion Ex.cfg Ex.lim (Ex.world []) (Ex.nsUpdate Ex.badLabels [])).1.code = 422 := by decide +kernel
 
 #print axioms C11_create
 #print axioms C11_update
